@@ -9,6 +9,23 @@ use crate::{
 use alloc::vec::Vec;
 use core::mem::ManuallyDrop;
 
+/// A column viewed as a `Vec<C>`, whose pointer and capacity are written back to the column when
+/// this is dropped.
+///
+/// Cloning into the `Vec<C>` can reallocate it and then run a component's `Clone` or `Drop`
+/// implementation. Should that implementation panic, the column must not be left pointing at the
+/// released allocation.
+struct ColumnVec<'a, C> {
+    column: &'a mut (*mut u8, usize),
+    vec: ManuallyDrop<Vec<C>>,
+}
+
+impl<C> Drop for ColumnVec<'_, C> {
+    fn drop(&mut self) {
+        *self.column = (self.vec.as_mut_ptr().cast::<u8>(), self.vec.capacity());
+    }
+}
+
 pub trait Sealed: Registry {
     /// Clone the components in `components_a` to `components_b`, returning `components_b`.
     ///
@@ -168,13 +185,17 @@ where
                 unsafe { components_b.get_unchecked(0) };
             // SAFETY: `component_a` and `length_a` are guaranteed to contain the raw parts for a
             // valid `Vec<C>`.
-            let mut component_vec_a = ManuallyDrop::new(unsafe {
+            let vec_a = ManuallyDrop::new(unsafe {
                 Vec::from_raw_parts(
                     component_column_a.0.cast::<C>(),
                     length_a,
                     component_column_a.1,
                 )
             });
+            let mut component_vec_a = ColumnVec {
+                column: component_column_a,
+                vec: vec_a,
+            };
             // SAFETY: `component_b` and `length_b` are guaranteed to contain the raw parts for a
             // valid `Vec<C>`.
             let component_vec_b = ManuallyDrop::new(unsafe {
@@ -185,11 +206,8 @@ where
                 )
             });
 
-            (*component_vec_a).clone_from(&(*component_vec_b));
-            *component_column_a = (
-                component_vec_a.as_mut_ptr().cast::<u8>(),
-                component_vec_a.capacity(),
-            );
+            (*component_vec_a.vec).clone_from(&(*component_vec_b));
+            drop(component_vec_a);
             components_a =
                 // SAFETY: `components_a` is guaranteed to have the same number of values as there
                 // set bits in `identifier_iter`. Since a bit must have been set to enter this
